@@ -1371,6 +1371,41 @@ pub fn c12_check(case: &Case, rng: &mut Rng, threads: usize, reps: usize, calls_
         }
         drop(junk);
     }
+    // equal operands in another spelling: +0.0 and -0.0 are equal coordinates; operands that differ only in the sign of
+    // their zeros are equal operands and must give equal results (compared as values)
+    {
+        let mut flips = 0u32;
+        let mut flip = |c: &mut geo_types::Coord<f64>, rng: &mut Rng| {
+            for v in [&mut c.x, &mut c.y] {
+                if *v == 0.0 && rng.below(2) == 0 {
+                    *v = -*v;
+                    flips += 1;
+                }
+            }
+        };
+        let (mut za, mut zb) = (ga.clone(), gb.clone());
+        for mp in [&mut za, &mut zb] {
+            for poly in mp.0.iter_mut() {
+                poly.exterior_mut(|ls| ls.0.iter_mut().for_each(|c| flip(c, rng)));
+                poly.interiors_mut(|rs| rs.iter_mut().for_each(|ls| ls.0.iter_mut().for_each(|c| flip(c, rng))));
+            }
+        }
+        // rings must stay closed: a flipped first vertex and its closing copy are equal as values, which is what closure means
+        if flips > 0 {
+            for (oi, op) in OPS.iter().enumerate() {
+                let r = guarded(n, || za.boolean(&zb, lib_op(*op))).map_err(fail_of)?;
+                *counts.entry("signed-zero-respellings-compared".into()).or_insert(0) += 1;
+                let r0: MultiPolygon<f64> = {
+                    // the reference result, re-created from its bit pattern
+                    guarded(n, || ga.boolean(&gb, lib_op(*op))).map_err(fail_of)?
+                };
+                debug_assert_eq!(bits_of(&r0), reference[oi]);
+                if r != r0 {
+                    return Err(("determinism".into(), format!("{} returns a different result when some zero coordinates of the operands are written -0.0 instead of 0.0 (equal operands)", op.name())));
+                }
+            }
+        }
+    }
     // in-place edits: the result is a function of the current coordinate values only - not of where the operand lives,
     // how long its rings are, its bounding box, or what was computed from the same buffers before
     if reps > 0 {
